@@ -12,7 +12,7 @@ HYPOTHESES = []
 NOT_YET_PROVED = []
 ASSUMPTIONS = []
 nontrivial = nontrivial_default
-EXTRA_MODULES = {"Props.TiePairing": "PyEcc.Tie.", "Props.TieMiller": "PyEcc.Tie."}
+EXTRA_MODULES = {"Props.TiePairing": "PyEcc.Tie.", "Props.TieMiller": "PyEcc.Tie.", "Props.TieHashCurve": "PyEcc.Tie."}
 CHUNK = 1
 P = O.BLS_P
 
